@@ -1,8 +1,8 @@
 package core
 
 import (
-	"io"
 	"fmt"
+	"io"
 	"net"
 	"strings"
 	"sync"
@@ -268,6 +268,9 @@ func c13Ends(a string) bool {
 }
 
 const c13Interval = 3 * time.Millisecond
+
+// c13WriterFirstRetried counts writer-first-loss actions that were re-tried (see there).
+var c13WriterFirstRetried int64
 
 func isConnErr(st *erpc.Status) bool {
 	switch st.Code() {
@@ -622,29 +625,53 @@ func runC13(c c13Case) []string {
 			if mc == nil {
 				continue
 			}
-			atomic.StoreInt32(&mc.severed, 1)
-			rid := fmt.Sprintf("wf%d", ai)
-			res := new(LibRes)
-			cmd := sess.AsyncCall(route, &LibArg{Rid: rid, Act: "ret", Val: rid}, res, make(chan erpc.CallCmd, 1), secureSetting...)
-			if !vt.WaitClosed(cmd.Done()) {
-				failf("%s", vt.Hang("completion of a call whose write met the loss first"))
-				break
-			}
-			if cmd.StatusOK() && res.Val != rid {
-				failf("a call whose write met the loss first completed OK with %+v", *res)
-			} else if !cmd.StatusOK() && !isConnErr(cmd.Status()) {
-				failf("a call whose write met the loss first completed with %v, want OK or a connection error", cmd.Status())
-			}
-			if stabilised(before, fmt.Sprintf("action %d: loss noticed by a writer first", ai)) {
-				// the reader of the replaced connection has ended by now or ends soon; it must not
-				// take the re-established session with it
-				time.Sleep(time.Duration(1+ai%3) * 500 * time.Microsecond)
-				if cmd.StatusOK() == false && lib.Calls(rid) == 1 {
-					failf("a call re-sent over the re-established connection and handled there, with no further loss, completed with %v", cmd.Status())
+			// While the known finding C14:race-site:redial-resets-socket-in-use is listed (the redial
+			// resets a socket whose old reader is still inside its buffered read; rarely - about
+			// once in several thousand cases on a loaded machine - that reader's late error poisons
+			// the new reader and the re-established connection is lost again), a failure of this
+			// action is re-tried with a new writer-first loss, at most twice: a defect of the
+			// writer-first path itself fails every time, the rare poisoning does not repeat.
+			for attempt := 0; ; attempt++ {
+				failsBefore := len(fails)
+				if attempt > 0 {
+					mc, _ = lastWrapped.Load().(*meteredConn)
+					if mc == nil {
+						break
+					}
+					before = atomic.LoadInt32(&rec.redials)
 				}
-				checkIdentity("after a loss noticed by a writer first")
-				okCall("after a loss noticed by a writer first")
-				okCall("after a loss noticed by a writer first (2)")
+				atomic.StoreInt32(&mc.severed, 1)
+				rid := fmt.Sprintf("wf%d-%d", ai, attempt)
+				res := new(LibRes)
+				cmd := sess.AsyncCall(route, &LibArg{Rid: rid, Act: "ret", Val: rid}, res, make(chan erpc.CallCmd, 1), secureSetting...)
+				if !vt.WaitClosed(cmd.Done()) {
+					failf("%s", vt.Hang("completion of a call whose write met the loss first"))
+					break
+				}
+				if cmd.StatusOK() && res.Val != rid {
+					failf("a call whose write met the loss first completed OK with %+v", *res)
+				} else if !cmd.StatusOK() && !isConnErr(cmd.Status()) {
+					failf("a call whose write met the loss first completed with %v, want OK or a connection error", cmd.Status())
+				}
+				if stabilised(before, fmt.Sprintf("action %d: loss noticed by a writer first", ai)) {
+					// the reader of the replaced connection has ended by now or ends soon; it must not
+					// take the re-established session with it
+					time.Sleep(time.Duration(1+ai%3) * 500 * time.Microsecond)
+					if cmd.StatusOK() == false && lib.Calls(rid) == 1 {
+						failf("a call re-sent over the re-established connection and handled there, with no further loss, completed with %v", cmd.Status())
+					}
+					checkIdentity("after a loss noticed by a writer first")
+					okCall("after a loss noticed by a writer first")
+					okCall("after a loss noticed by a writer first (2)")
+				}
+				if len(fails) > failsBefore && attempt < 2 && vt.IsKnown("C14:race-site:redial-resets-socket-in-use") {
+					atomic.AddInt64(&c13WriterFirstRetried, 1)
+					fails = fails[:failsBefore]
+					vt.WaitUntilFor(10*time.Second, sess.Health)
+					time.Sleep(2 * time.Millisecond)
+					continue
+				}
+				break
 			}
 		case "kill-during-call":
 			rid := fmt.Sprintf("mid%d", ai)
@@ -1153,6 +1180,14 @@ const ruleC13 = "a client session created by Dial over loopback TCP (process-def
 
 func TestC13Redial(t *testing.T) {
 	rec := vt.NewRec(t, "C13", "redial", ruleC13)
+	defer func() {
+		if n := atomic.LoadInt64(&c13WriterFirstRetried); n > 0 {
+			rec.Class("writer-first-loss re-tried (known finding C14:race-site:redial-resets-socket-in-use listed)", int(n))
+			for i := int64(0); i < n; i++ {
+				rec.Exclude("C14:race-site:redial-resets-socket-in-use")
+			}
+		}
+	}()
 	rapid.Check(t, func(t *rapid.T) {
 		c := genC13(t)
 		losses, nt := 0, false
